@@ -83,6 +83,7 @@ type PathRun struct {
 	funcs     map[string]bool
 	chanID    int
 	nAsserts  int
+	lastNow   *Term
 }
 
 type branchKey struct {
